@@ -266,13 +266,59 @@ func genWrapper(r *rng.R, tier string) corr.Case {
 	return corr.Case{Tag: "wrapper-history", Lines: lines}
 }
 
+func randWrOp(r *rng.R, K, hot int, ver *int) string {
+	key := func() int {
+		if r.Chance(3, 4) {
+			return hot
+		}
+		return r.Range(0, K+1)
+	}
+	*ver++
+	switch r.Intn(10) {
+	case 0, 1, 2:
+		return fmt.Sprintf("upd %d %d %d", key(), r.Range(1, K+3), *ver)
+	case 3, 4:
+		return fmt.Sprintf("ups %d %d %d", key(), r.Range(1, K+3), *ver)
+	case 5, 6, 7:
+		return fmt.Sprintf("del %d", key())
+	case 8:
+		return fmt.Sprintf("ins %d %d", key(), *ver)
+	}
+	return fmt.Sprintf("get %d", key())
+}
+
+// genRace: the locked wrapper with two callers: call A is parked inside its pos-th key comparison, B (mostly on the
+// same key) is started, A is released; results and contents must be those of A;B or B;A.
+func genRace(r *rng.R, tier string) corr.Case {
+	K := r.PickInt(3, 5, 8, 12, 20)
+	lines := []string{"neww"}
+	ver := 0
+	for k := 1; k <= K; k++ {
+		if r.Chance(4, 5) {
+			ver++
+			lines = append(lines, fmt.Sprintf("wins %d %d", k, ver))
+		}
+	}
+	n := r.Range(1, 4)
+	for i := 0; i < n; i++ {
+		hot := r.Range(1, K)
+		a := randWrOp(r, K, hot, &ver)
+		if r.Chance(1, 2) {
+			ver++
+			a = fmt.Sprintf("upd %d %d %d", hot, r.Range(1, K+3), ver)
+		}
+		lines = append(lines, fmt.Sprintf("wrace %d %s / %s", r.PickInt(1, 1, 2, 2, 3, 4, 5, 7), a, randWrOp(r, K, hot, &ver)), "wchk", "wlen")
+	}
+	return corr.Case{Tag: "wrapper-race", Lines: lines}
+}
+
 // genMalformed: a valid prefix with ill-formed lines mixed in (both sides must answer bad-op and keep their state).
 func genMalformed(r *rng.R) corr.Case {
 	lines := []string{r.Pick("new 2", "new 3", "neww")}
 	bad := []string{"", "foo", "ins", "ins 0", "ins 0 x 1", "ins 0 1 -1", "ins 9 1 1", "del 0", "del 0 1 2", "scan 0 ascgt - - all",
 		"scan 0 asc 1 - all", "scan 0 nope 1 - all", "scan 0 ascgt 1 - maybe", "scan 0 ascrange 1 - all", "get 0 1234567890", "clone 7",
 		"clear 0 2", "owned 9", "cons x", "wins 1", "wscan ge 1 all 1", "wscan gte 1 all x", "wscan gte 1 some 1", "wupd 1 2", "new 1", "new 65", "new x", "neww 2",
-		"len", "chk -1", "wget 00000000001", "wdel --1", "has 0 1 1", "min 0 0", "wconc 5 1", "wconc 1 1000"}
+		"len", "chk -1", "wget 00000000001", "wdel --1", "has 0 1 1", "min 0 0", "wconc 5 1", "wconc 1 1000", "wrace 0 del 1 / del 1", "wrace 1 del 1 del 1", "wrace 1 upd 1 / del 1", "wrace x del 1 / del 1"}
 	good := []string{"ins 0 1 1", "ins 0 2 2", "ins 0 3 3", "del 0 2", "scan 0 asc - - all", "len 0", "wins 1 1", "wins 2 2", "wdel 1", "wscan gte 0 all 5", "wlen", "get 0 1", "wget 2", "clone 0"}
 	n := r.Range(6, 20)
 	for i := 0; i < n; i++ {
@@ -346,6 +392,9 @@ func fixedCases() []corr.Case {
 		corr.Case{Tag: "fixed-regress", Lines: []string{"new 2", "ins 0 5 1", "scan 0 ascgt 5 - none", "scan 0 desclt 5 - none", "scan 0 descrange 5 4 none", "scan 0 descle 5 - all"}},
 		corr.Case{Tag: "fixed-regress", Lines: []string{"neww", "wins 3 31", "wins 4 30", "wins 5 24", "wins 7 23", "wscan lte 9 all 3", "wscan gt 2 mod3 1", "wscan lte 2 all 1000", "wupd 9 9 4", "wlen", "wscan gte 0 all 10"}},
 		corr.Case{Tag: "fixed-regress", Lines: []string{"new 2", "ins 0 1 1", "ins 0 2 2", "ins 0 3 3", "ins 0 4 4", "chk 0", "ins 0 5 5", "ins 0 6 6", "chk 0", "clone 0", "del 1 3", "chk 0", "chk 1", "scan 0 asc - - all", "del 0 1", "del 0 2", "chk 0", "len 0", "scan 1 asc - - all"}},
+		// the interleaving of seeded change C03-4: Update parked in its lookup, Delete of the same key queued behind it
+		corr.Case{Tag: "fixed-race", Lines: []string{"neww", "wins 1 1", "wins 2 2", "wins 3 3", "wrace 1 upd 2 20 7 / del 2", "wchk", "wlen",
+			"wrace 1 upd 1 21 8 / upd 1 22 9", "wchk", "wrace 2 del 3 / ups 3 5 10", "wrace 1 get 5 / del 5", "wrace 9 upd 21 4 11 / ins 21 12", "wlen"}},
 	)
 	return cs
 }
@@ -361,10 +410,12 @@ func spec() corr.Spec {
 			case "thorough":
 				return 60000
 			}
-			return 30000
+			return 18000
 		},
 		Gen: func(r *rng.R, tier string, i int) corr.Case {
-			switch x := r.Intn(20); {
+			switch x := r.Intn(22); {
+			case x >= 20:
+				return genRace(r, tier)
 			case x < 6:
 				return genDirect(r, tier, false)
 			case x < 10:
@@ -384,7 +435,10 @@ func spec() corr.Spec {
 			// at least three stored items at some point and a non-empty scan result
 			ins, scans := 0, 0
 			for i, l := range c.Lines {
-				if (strings.HasPrefix(l, "ins ") || strings.HasPrefix(l, "wins ")) && res.Outs[i] != "bad-op" {
+				if strings.HasPrefix(l, "wrace ") && strings.HasPrefix(res.Outs[i], "a=") {
+				scans++
+			}
+			if (strings.HasPrefix(l, "ins ") || strings.HasPrefix(l, "wins ")) && res.Outs[i] != "bad-op" {
 					ins++
 				}
 				if (strings.HasPrefix(l, "scan ") || strings.HasPrefix(l, "wscan ")) && len(res.Outs[i]) > 2 && res.Outs[i][0] == '[' {
